@@ -34,8 +34,20 @@ class YncaFunctionHandler:
         self.value = None
         self.function = function
 
-    def update(self, value_str: str):
-        self.value = self.function.converter.to_value(value_str)
+    def update(self, value_str: str) -> bool:
+        """Update the value, returns False if the value could not be converted (value is kept as-is)"""
+        try:
+            self.value = self.function.converter.to_value(value_str)
+        except Exception:
+            # Devices can report values that do not fit the type, e.g. "Auto Down" for FMFREQ while seeking.
+            # This runs on the reader thread, an exception here would take down the whole connection.
+            logger.warning(
+                "Ignoring value '%s' for %s, it can not be converted",
+                value_str,
+                self.function.name,
+            )
+            return False
+        return True
 
 
 class SubunitBase(ABC):
@@ -144,8 +156,8 @@ class SubunitBase(ABC):
             return
 
         if function_name is not None and value_str is not None and (handler := self.function_handlers.get(function_name, None)):
-            handler.update(value_str)
-            self._call_registered_update_callbacks(function_name, handler.value)
+            if handler.update(value_str):
+                self._call_registered_update_callbacks(function_name, handler.value)
 
     def _put(self, function_name: str, value: str):
         if self._connection:
